@@ -314,19 +314,118 @@ def _utf8_ok(s):
 
 @cond(bounds='User Identity sub-item (PS3.7 D.3.3.7: fields are UTF-8) emitted inside an A-ASSOCIATE-RQ between two other '
              'sub-items: primary and secondary field with symbolic CONTENT of 0..2 characters each over the whole Unicode '
-             'range (1-4 byte encodings; lone surrogates excluded), identity type / response flag symbolic bytes; the '
+             'range (1-4 byte encodings; lone surrogates excluded; secondary 0..1), identity type / response flag symbolic bytes; the '
              'enclosing item, user-information and PDU length fields must count bytes, not characters',
       timeout=240, thorough_timeout=900)
 def emit_user_identity_text(p: str, q: str, a: int, b: int) -> bool:
     """
-    pre: len(p) <= 2 and len(q) <= 2 and _utf8_ok(p) and _utf8_ok(q) and 0 <= a <= 255 and 0 <= b <= 255
+    pre: len(p) <= 2 and len(q) <= 1 and _utf8_ok(p) and _utf8_ok(q) and 0 <= a <= 255 and 0 <= b <= 255
     post: _
     """
     s = udi.UserIdentityNegotiationSubItem(p, q, user_identity_type=a, positive_response_req=b)
     x = rq_with([udi.MaximumLengthSubItem(16384), s, udi.ImplementationVersionNameSubItem('V1')])
     ok = emits(x)
-    # and the converse: the reference encoding of the same value is accepted
-    v = pdu_to_ref(x)
-    ok = ok and accepts(pdu.AAssociateRqPDU, v)
     deep(ok and len(p) == 2 and ord(p[0]) > 0x7FF and len(q) == 1 and ord(q[0]) > 127)
+    return ok
+
+
+# ------------------------------------------------------------------------------------------------
+# direction A on objects that were modified after construction (the library itself does this: the acceptor re-uses the
+# received user-information item and assigns its own maximum length; services re-use message / PDU objects)
+# ------------------------------------------------------------------------------------------------
+
+def _assign_public(dst, src):
+    """give dst every public attribute value of src (plain attribute assignment, as library and user code do)"""
+    for k, v in list(vars(src).items()):
+        if not k.startswith('_'):
+            setattr(dst, k, v)
+
+
+@cond(bounds='fixed-layout PDUs built with one set of field values, then EVERY public attribute re-assigned to a second, '
+             'symbolic set (full width) before encoding: the bytes must describe the current field values',
+      family={'kind': [3, 5, 6, 7]}, timeout=120)
+def emit_reassigned_fixed(a: int, b: int, c: int, d: int, e: int) -> bool:
+    """
+    pre: 0 <= a <= 255 and 0 <= b <= 255 and 0 <= c <= 255 and 0 <= d <= 255 and 0 <= e <= 0xFFFFFFFF
+    post: _
+    """
+    k = fam('kind')
+    if k == 3:
+        p, q = pdu.AAssociateRjPDU(1, 2, 3), pdu.AAssociateRjPDU(a, b, c, d, e & 255)
+    elif k == 7:
+        p, q = pdu.AAbortPDU(2, 6), pdu.AAbortPDU(a, b, c, d, e & 255)
+    else:
+        cls = pdu.AReleaseRqPDU if k == 5 else pdu.AReleaseRpPDU
+        p, q = cls(), cls(a, e)
+    p.encode()
+    _assign_public(p, q)
+    ok = emits(p) and pdu_to_ref(p) == pdu_to_ref(q)
+    deep(ok and a == 9 and e == 0x01020304)
+    return ok
+
+
+@cond(bounds='each of the 9 user-information sub-item kinds placed in an A-ASSOCIATE-RQ (already encoded once), then every '
+             'public attribute of the sub-item re-assigned to symbolic values (integers full width, lengths symbolic, one '
+             'at a time) and the PDU encoded again',
+      family=lambda t: [dict(kind=k, lenvar=v) for k in range(9) for v in ('n', 'm')
+                        if not (v == 'm' and k not in (5, 6, 8))], timeout=180)
+def emit_reassigned_sub(a: int, b: int, r: int, n: int, m: int) -> bool:
+    """
+    pre: sub_ok(fam('kind'), a, b, r, n, m, 64 if fam('lenvar') == 'n' else 2, 32 if fam('lenvar') == 'm' else 2)
+    post: _
+    """
+    kind = fam('kind')
+    s = sample_sub(kind, 5)
+    p = rq_with([udi.MaximumLengthSubItem(16384), s, udi.ImplementationVersionNameSubItem('V1')])
+    p.encode()
+    t = build_sub(kind, a, b, r, n, m)
+    _assign_public(s, t)
+    ok = emits(p)
+    if kind != 6:                         # the user-identity fields are read-only properties
+        ok = ok and sub_to_ref(s) == sub_to_ref(t)
+    deep(ok and (n > 2 or m > 2 or a > 2))
+    return ok
+
+
+@cond(bounds='A-ASSOCIATE-RQ / AC and P-DATA-TF modified after construction and a first encode: AE titles (symbolic length '
+             '0..16), protocol version, item list extended by a presentation context, user-information list extended by '
+             'a sub-item, context id / result of a presentation-context item, PDV list extended and PDV payload / '
+             'context id re-assigned (symbolic bytes <= 3)', family={'ac': [0, 1]}, timeout=240)
+def emit_reassigned_assoc(n: int, pv: int, cid: int, res: int, c: int, d: bytes) -> bool:
+    """
+    pre: 0 <= n <= 16 and 0 <= pv <= 65535 and 0 <= cid <= 255 and 0 <= res <= 255 and 0 <= c <= 0xFFFFFFFF
+    pre: len(d) <= 3
+    post: _
+    """
+    n = pick(n, 0, 16)
+    ml = udi.MaximumLengthSubItem(16384)
+    ui = pdu.UserInformationItem([ml])
+    if fam('ac'):
+        pc = pdu.PresentationContextItemAC(1, 0, pdu.TransferSyntaxSubItem(TS[0]))
+        p = pdu.AAssociateAcPDU('CALLED', 'CALLING', [pdu.ApplicationContextItem(APP), pc, ui])
+    else:
+        pc = pdu.PresentationContextItemRQ(1, pdu.AbstractSyntaxSubItem(UIDCH[:20]), [pdu.TransferSyntaxSubItem(TS[0])])
+        p = pdu.AAssociateRqPDU('CALLED', 'CALLING', [pdu.ApplicationContextItem(APP), pc, ui])
+    first = p.encode()
+    ok = len(first) == p.total_length()
+    # what AssociationAcceptor.accept does to the received item, and more of the same kind
+    ml.maximum_length_received = c
+    ui.user_data.append(udi.ImplementationVersionNameSubItem('V2'))
+    pc.context_id = cid
+    if fam('ac'):
+        pc.result_reason = res
+    else:
+        pc.ts_sub_items.append(pdu.TransferSyntaxSubItem(TS[1]))
+    p.called_ae_title = NAMECH[:n]
+    p.calling_ae_title = 'Calling_AE-Title'[:16 - n]
+    p.protocol_version = pv
+    ok = ok and emits(p)
+    v = pdu.PresentationDataValueItem(1, b'\x03\x01')
+    t = pdu.PDataTfPDU([v])
+    t.encode()
+    v.context_id = cid
+    v.data_value = d
+    t.data_value_items.append(pdu.PresentationDataValueItem(res, APPCH[:2]))
+    ok = ok and emits(t)
+    deep(ok and n == 5 and c == 0 and len(d) == 3)
     return ok
